@@ -138,7 +138,7 @@ export async function run(ctx) {
       }
     }
     if (thrown) { report.count('reference_throws_skipped'); continue }
-    items.push({ ...w, text, refs })
+    items.push({ ...w, text, refs, asCondition: !w.literal && (w.cls.startsWith('depth2') || w.cls.startsWith('chain') || items.length % 3 === 0) })
   }
   const BATCH = 100
   const batches = []
@@ -182,6 +182,21 @@ export async function run(ctx) {
       // all attributes are on the element(s) <x>; collect by attribute name
       const got = {}
       for (const c of tr.chan.values()) for (const [name, v] of Object.entries(c.r)) got[name] = v[0]
+      const tags = new Set()
+      for (const info of tr.info.values()) tags.add(info.tag)
+      batch.forEach((w, k) => {
+        if (w.jsRejects) return
+        if (w.asCondition && !w.failed) {
+          report.evals()
+          const want = w.refs[ei] ? 'y' : 'none' // (the elif repeats the condition: it can never be taken)
+          const gotBranch = tags.has('y' + k) ? 'y' : tags.has('z' + k) ? 'z' : 'none'
+          report.cell('condition_position', want, gotBranch)
+          if (gotBranch !== want) {
+            report.violation(`wx:if="${w.text}" took the branch ${gotBranch}; JavaScript gives the condition ${X.show(w.refs[ei])} (${want})`, { wxml: w.text, meaning: X.printFull(w.e), cls: w.cls, env: ei, data: X.show(D), position: 'wx:if' })
+            w.failed = true
+          }
+        }
+      })
       batch.forEach((w, k) => {
         if (w.jsRejects) return
         report.evals()
@@ -207,7 +222,8 @@ export async function run(ctx) {
     return true
   }
 
-  const toCase = (batch, id) => ({ id, files: [['p', '<x ' + batch.map((w, k) => `v${k}="${w.text}"`).join(' ') + '/>']], scripts: [] })
+  // every expression is also used as a `wx:if` condition (a different emission context: the branch selector chain)
+  const toCase = (batch, id) => ({ id, files: [['p', '<x ' + batch.map((w, k) => `v${k}="${w.text}"`).join(' ') + '/>' + batch.map((w, k) => (w.asCondition ? `<y${k} wx:if="${w.text}"/><z${k} wx:elif="${w.text}"/>` : '')).join('')]], scripts: [] })
   // compile all batches in one driver process, then execute
   const results = compileMany(batches.map((b, i) => toCase(b, i)))
   const retry = []
